@@ -222,6 +222,18 @@ impl<'a> JParser<'a> {
         }
         Ok(v)
     }
+    /// Parse a concatenation of JSON values separated by whitespace.
+    pub fn parse_stream(s: &'a str) -> Result<Vec<J>, String> {
+        let mut p = JParser { b: s.as_bytes(), i: 0 };
+        let mut out = vec![];
+        loop {
+            p.ws();
+            if p.i >= p.b.len() {
+                return Ok(out);
+            }
+            out.push(p.value()?);
+        }
+    }
     fn ws(&mut self) {
         while self.i < self.b.len() && matches!(self.b[self.i], b' ' | b'\n' | b'\r' | b'\t') {
             self.i += 1;
